@@ -81,8 +81,17 @@ SaveLoadFresh ==
   /\ res' = [a |-> "SaveLoadFresh", mustBeSameFunction |-> TRUE]
   /\ UNCHANGED <<kind, anInit>>
 
+\* the session continues with a copy of the model (copy.deepcopy, or torch.save / torch.load of the whole
+\* module): modes, freezes, the initialisation flag and the function all travel with the object; no
+\* repetition is owed across the two objects
+Clone(how) ==
+  /\ how \in {"deepcopy", "pickle"}
+  /\ seen' = {} /\ res' = [a |-> "Clone", how |-> how, mustBeSameFunction |-> TRUE]
+  /\ UNCHANGED <<kind, mode, anInit, frozen>>
+
 Next ==
   \/ Train \/ Eval \/ Freeze \/ TrainStep \/ SaveLoadFresh
+  \/ \E how \in {"deepcopy", "pickle"} : Clone(how)
   \/ \E op \in {"forward", "inverse", "log_prob", "sample", "sample_and_log_prob", "transform_to_noise"},
         ik \in InputKinds : Call(op, ik)
 
@@ -106,6 +115,8 @@ InverseNeverInitialises ==
 InitOnce == [][(res'.a = "Call" /\ "an_init" \in res'.mayWrite) => (~anInit /\ anInit')]_vars
 \* C15: the initialisation flag survives a reload
 ReloadKeepsInit == [][res'.a = "SaveLoadFresh" => anInit' = anInit]_vars
+\* a copy is in the state its original is in
+CloneKeepsState == [][res'.a = "Clone" => (mode' = mode /\ anInit' = anInit /\ frozen' = frozen)]_vars
 
 View == <<kind, mode, anInit, seen, frozen>>
 =============================================================================
